@@ -14,8 +14,7 @@
 (*           hosts entries of the name as typed: a resolver that consults    *)
 (*           the hosts table before applying the search list returns these   *)
 (*           and asks nothing (accepted as well).                            *)
-(* Only behaviours of the per-candidate reading are walked (ACTION_CONSTRAINT*)
-(* PerCandidateReading in the generated cfg).                                *)
+(* Only behaviours of the per-candidate reading are printed.                 *)
 (* The driver runs the real Resolver on cfg / world; its recorded events are *)
 (* additionally judged by the monitor Trace_Stub.                            *)
 EXTENDS Stub, Json
@@ -32,5 +31,7 @@ Case ==
                 typed  |-> HostsAsTyped(cfg),
                 result |-> [kind |-> result.kind, groups |-> result.groups, errs |-> SetToSeq(result.errs)]]]
 
-Emit == Done => PrintT(<<"REPLAY", ToJson(Case)>>)
+\* the shortcut AnswerHostsAsTyped ends a lookup before the candidate list exists
+PerCandidate == IsLiteral(cfg) \/ cands # <<>>
+Emit == (Done /\ PerCandidate) => PrintT(<<"REPLAY", ToJson(Case)>>)
 =============================================================================
